@@ -41,7 +41,11 @@ def run(tier, seed):
     R = C.Report(CID, tier, seed)
     rng = C.rng_for(seed, CID)
     quick = tier == 'quick'
+    ok_tr, tr_msg = T.regen_gen()
     P = R.proof_stage()
+    if not ok_tr:
+        P['ok'] = False
+        P['log'] = 'translator failed closed: ' + tr_msg
     tie = T.Tie(R)
     if not tie.ready:
         R.violation('tie-build-failed', 'could not build model or Rust harness',
@@ -187,7 +191,8 @@ def run(tier, seed):
                           'larger patterns (concrete and meta); instantiate with partial/total/duplicate-key maps whose values mention other metavariables; '
                           'non-trivial = not rejected; distinct by request')
     R.coverage['exhaustive'] = False
-    return R.finish(trusted_base=C.TRUSTED_COMMON + ['harness/rust/harness.rs entry points SE/SS/I calling the private lib.rs functions',
+    return R.finish(trusted_base=C.TRUSTED_COMMON + [
+        'translators/rust_judge.py, rust_subst.py, opcodes.py (Rust-subset readers that regenerate coq/Gen/*.v from lib.rs every run; fail closed)','harness/rust/harness.rs entry points SE/SS/I calling the private lib.rs functions',
                                                     'harness/mloracle.py textbook substitution and mltie.evaluate finite-model evaluator (search only)'])
 
 
